@@ -209,7 +209,7 @@ def tie(ctx):
     for v in violations:
         firstv.setdefault(v["signature"], v)
     return {"families": fam, "violations": list(firstv.values()), "evaluations": 2 * len(descs), "distinct_nontrivial": len(distinct),
-            "rule": "metamorphic pairs: planted evidence table with qualities at/above the thresholds vs the same table plus observations failing the mapping- or base-quality threshold (on existing variants and as low-only variants); thresholds 1-30, often asymmetric; both through the real estimate_major and estimate_minor; distinct by hash",
+            "rule": "metamorphic pairs: planted evidence table with qualities at/above the thresholds vs the same table plus observations failing the mapping- or base-quality threshold (on existing variants and as low-only variants), thin variants (fewer qualifying observations than min_coverage at a shallow site); thresholds 1-30, often asymmetric; both through the real estimate_major and estimate_minor; distinct by hash",
             "samples": samples, "stats": dict(stats)}
 
 
